@@ -92,6 +92,8 @@ type Scenario struct {
 	Pool   [][]KV     `json:"pool"`
 	Events []Event    `json:"events"`
 	Reuse  bool       `json:"reuse,omitempty"` // reuse one ResourceMetrics across collections
+	RSel     []int  `json:"rsel,omitempty"`  // reader's aggregation selector: aggregation code per instrument kind (index 1..7); nil = none
+	RSel2    []int  `json:"rsel2,omitempty"` // the same for the second reader
 	R2       bool   `json:"r2,omitempty"`     // a second ManualReader (pipeline) with temporality mask TMask2
 	TMask2   uint64 `json:"tmask2,omitempty"`
 	EnvAfter string `json:"envafter,omitempty"` // value the environment variable is changed to after the instruments exist
@@ -310,17 +312,26 @@ func runScenario(sc Scenario) (res Result) {
 	}()
 	ctx := context.Background()
 	setLimitEnv(sc.Env) // read when an aggregator is created, not at process start
-	mkReader := func(mask uint64) *sdkmetric.ManualReader {
-		return sdkmetric.NewManualReader(sdkmetric.WithTemporalitySelector(func(k sdkmetric.InstrumentKind) metricdata.Temporality {
+	mkReader := func(mask uint64, rsel []int) *sdkmetric.ManualReader {
+		ro := []sdkmetric.ManualReaderOption{sdkmetric.WithTemporalitySelector(func(k sdkmetric.InstrumentKind) metricdata.Temporality {
 			if mask>>uint(k)&1 == 1 {
 				return metricdata.DeltaTemporality
 			}
 			return metricdata.CumulativeTemporality
-		}))
+		})}
+		if rsel != nil {
+			ro = append(ro, sdkmetric.WithAggregationSelector(func(k sdkmetric.InstrumentKind) sdkmetric.Aggregation {
+				if int(k) < len(rsel) {
+					return aggregationOf(rsel[k]) // may be nil, Default, or an aggregation that fails validation
+				}
+				return nil
+			}))
+		}
+		return sdkmetric.NewManualReader(ro...)
 	}
-	readers := []*sdkmetric.ManualReader{mkReader(sc.TMask)}
+	readers := []*sdkmetric.ManualReader{mkReader(sc.TMask, sc.RSel)}
 	if sc.R2 {
-		readers = append(readers, mkReader(sc.TMask2)) // a second pipeline: every measurement reaches both, once each
+		readers = append(readers, mkReader(sc.TMask2, sc.RSel2)) // a second pipeline: every measurement reaches both, once each
 	}
 	var views []sdkmetric.View
 	for _, v := range sc.Views {
@@ -1242,9 +1253,33 @@ func genScenario(r *vgen.Rand, thorough bool) Scenario {
 	lim := limits[r.Intn(len(limits))]
 	sc := Scenario{L: lim.L, Env: lim.Env, Reuse: r.Bool()}
 	sc.TMask = vgen.Pick(r, []uint64{0, 0xfe, 0xfe, 1<<1 | 1<<3 | 1<<4 | 1<<6 | 1<<7, r.U64() & 0xfe})
+	genSel := func() []int {
+		sel := make([]int, 8)
+		for k := 1; k <= 7; k++ {
+			sel[k] = vgen.Pick(r, []int{0, 1, 2, 2, 3, 4, 5, 6, 7, 8, 0, 1})
+		}
+		return sel
+	}
+	if r.Chance(1, 3) { // the reader prefers other aggregations than the default ones
+		sc.RSel = genSel()
+	}
 	if r.Chance(1, 5) { // a second reader with its own temporality
 		sc.R2 = true
 		sc.TMask2 = vgen.Pick(r, []uint64{0, 0xfe, 1<<1 | 1<<3 | 1<<4 | 1<<6 | 1<<7, r.U64() & 0xfe})
+		if r.Bool() {
+			sc.RSel2 = genSel()
+		}
+		// meter.int64ObservableInstrument stops at the first pipeline that returns an error, so an observable instrument
+		// the first reader cannot aggregate is never inserted into the second pipeline; the model treats readers
+		// independently, therefore both readers get the same preference for the observable kinds.
+		if sc.RSel != nil || sc.RSel2 != nil {
+			if sc.RSel2 == nil {
+				sc.RSel2 = make([]int, 8)
+			}
+			for k := 4; k <= 6; k++ {
+				sc.RSel2[k] = selOf(sc.RSel, k)
+			}
+		}
 	}
 	if r.Chance(1, 6) { // the variable changes after the instruments exist
 		sc.EnvAfter = vgen.Pick(r, []string{"1", "2", "100", "0", "x"})
@@ -1254,6 +1289,13 @@ func genScenario(r *vgen.Rand, thorough bool) Scenario {
 	}
 	sc.Insts = genInsts(r)
 	sc.Views = genViews(r, sc.Insts)
+	if sc.RSel != nil || sc.RSel2 != nil { // under such a reader, views asking for AggregationDefault{} / nothing / something explicit
+		for j := range sc.Views {
+			if r.Chance(1, 3) {
+				sc.Views[j].Agg = vgen.Pick(r, []int{1, 1, 0, 3, 5})
+			}
+		}
+	}
 	// number of distinct attribute sets: around the limit, or anything in 1..30
 	n := 1 + r.Intn(12)
 	if lim.L > 0 && r.Chance(1, 2) {
@@ -1357,6 +1399,21 @@ func corpus() []Scenario {
 				Note: "NaN and infinities on float64 histogram / gauge / counter streams under a limit, a filter and re-aggregating views"})
 			out = append(out, Scenario{L: L, Env: env, TMask: tm, Insts: nfIn, Pool: [][]KV{ab(0, 0), ab(0, 1), ab(1, 0)}, Events: nfEv,
 				Note: "NaN and infinities, default views"})
+		}
+	}
+	// a reader with its own aggregation selector: a view without aggregation (and the default view) follow the reader,
+	// a view asking for AggregationDefault{} gets DefaultAggregationSelector(kind), an explicit aggregation is used as it is
+	selEv := []Event{{I: 0, A: 0, V: 1}, {I: 1, A: 1, V: 2}, {I: 0, A: 1, V: 4}, {I: 2, A: 0, V: 8}, {I: 1, A: 0, V: 16}, {I: 3, A: 1, V: 3}, {Collect: true},
+		{I: 0, A: 0, V: 32}, {I: 2, A: 1, V: 64}, {I: 3, A: 0, V: 5}, {Collect: true}}
+	selIn := []InstSpec{{Name: "c", Kind: 1}, {Name: "h", Kind: 3}, {Name: "g", Kind: 7}, {Name: "oc", Kind: 4}}
+	for _, sel := range [][]int{{0, 2, 2, 2, 2, 2, 2, 2}, {0, 4, 3, 3, 6, 5, 5, 5}, {0, 5, 6, 1, 0, 7, 8, 3}, {0, 6, 0, 2, 3, 1, 4, 4}} {
+		for _, tm := range []uint64{0, 0xfe} {
+			out = append(out, Scenario{L: 2, Env: "2", TMask: tm, RSel: sel, Insts: selIn, Pool: [][]KV{ab(0, 0), ab(0, 1)}, Events: selEv,
+				Views: []ViewSpec{{CName: "c", MName: "c.nil"}, {CName: "c", MName: "c.default", Agg: 1}, {CName: "c", MName: "c.sum", Agg: 3},
+					{CName: "h", Agg: 1}, {CName: "g", MName: "g.default", Agg: 1}, {CName: "g", MName: "g.nil"}, {CName: "oc", Agg: 1, MName: "oc.default"}, {CName: "oc"}},
+				Note: "reader aggregation selector vs views with no aggregation / AggregationDefault{} / an explicit one"})
+			out = append(out, Scenario{L: 0, Env: "", TMask: tm, RSel: sel, R2: true, TMask2: 0xfe, Insts: selIn, Pool: [][]KV{ab(0, 0), ab(0, 1)}, Events: selEv,
+				Note: "reader aggregation selector, default views only; a second reader with the default selector"})
 		}
 	}
 	// audit round: other spellings / entry points of the same operations
@@ -1473,7 +1530,14 @@ func effectiveEvents(sc Scenario) []Event {
 	return out
 }
 
-func caseTerm(sc Scenario, res Result, tmask uint64, observed [][]MetricObs) string {
+func selOf(rsel []int, kind int) int {
+	if kind < len(rsel) {
+		return rsel[kind]
+	}
+	return 0
+}
+
+func caseTerm(sc Scenario, res Result, tmask uint64, rsel []int, observed [][]MetricObs) string {
 	var views, insts, pool, evs, obs []string
 	for _, v := range sc.Views {
 		f := vgen.None
@@ -1485,7 +1549,7 @@ func caseTerm(sc Scenario, res Result, tmask uint64, observed [][]MetricObs) str
 	}
 	for _, i := range sc.Insts {
 		insts = append(insts, vgen.App("mkinst", vgen.HxS(i.Name), vgen.HxS(i.Desc), vgen.HxS(i.Unit), vgen.N(uint64(i.Kind)), vgen.Bool(i.Float),
-			vgen.HxS(i.SName), vgen.HxS(i.SVer), vgen.HxS(i.SURL)))
+			vgen.HxS(i.SName), vgen.HxS(i.SVer), vgen.HxS(i.SURL), vgen.N(uint64(selOf(rsel, i.Kind)))))
 	}
 	for _, s := range res.Pool {
 		pool = append(pool, setCoq(s))
@@ -1722,10 +1786,10 @@ func main() {
 				w.Tally("view:filter")
 			}
 		}
-		w.Add(caseTerm(sc, res, sc.TMask, res.Obs), sc, kind, overflowed || merged || len(sc.Views) > 0)
+		w.Add(caseTerm(sc, res, sc.TMask, sc.RSel, res.Obs), sc, kind, overflowed || merged || len(sc.Views) > 0)
 		if sc.R2 {
 			w.Tally("second-reader")
-			w.Add(caseTerm(sc, res, sc.TMask2, res.Obs2), sc, kind+"-reader2", true)
+			w.Add(caseTerm(sc, res, sc.TMask2, sc.RSel2, res.Obs2), sc, kind+"-reader2", true)
 		}
 	}
 	// ---- concurrent recording under a limit ----
